@@ -168,7 +168,18 @@ func preemptScenariosFor(prop string) []scn {
 		v2(flowParams{Sources: 1, Records: 2, Batch: 1, Dests: 1, AckMenu: []string{"ok", "defer"}, Stop: "stopwait"}, 1, 2)
 	case "C01", "C04":
 		v1(flowParams{Sources: 1, Records: 2, Batch: 1, Dests: 1, AckMenu: []string{"ok", "defer", "nack"}, Stop: ""}, 1, 2)
-		v1(flowParams{Sources: 1, Records: 2, Batch: 1, Dests: 2, AckMenu: okNack, Stop: ""}, 1, 2)
+		if prop == "C04" || verifkit.Thorough() {
+			v1(flowParams{Sources: 1, Records: 2, Batch: 1, Dests: 2, AckMenu: okNack, Stop: ""}, 1, 2)
+		}
+		if prop == "C01" {
+			// a destination that is still opening (its node does not receive) fails while the other destination's
+			// confirmation is in flight: the fan-out gives up on the clone it could not hand over
+			v1(flowParams{Sources: 1, Records: 1, Batch: 1, Dests: 2, AckMenu: onlyOK, GateDestOpen: true, LateOpen: []string{"d1"}, PointOnly: []string{"fanout.go"}, Stop: ""}, 2, 3)
+			if verifkit.Thorough() {
+				// ... or the run is force-stopped in that state
+				v1(flowParams{Sources: 1, Records: 1, Batch: 1, Dests: 2, AckMenu: onlyOK, GateDestOpen: true, Blocked: []string{"d1"}, Stop: "force"}, 2, 2)
+			}
+		}
 	case "C02":
 		v1(flowParams{Sources: 1, Records: 2, Batch: 1, Dests: 1, AckMenu: onlyOK, Stop: "stopwait", Bundle: 2}, 1, 2)
 		v2(flowParams{Sources: 1, Records: 2, Batch: 1, Dests: 1, AckMenu: onlyOK, Stop: "stopwait", Bundle: 2}, 1, 2)
